@@ -51,6 +51,72 @@ def run_project(rp, files, src="src", target="out", annotate=False):
         shutil.rmtree(d, ignore_errors=True)
 
 
+def ob_definitions_beat_stubs(run, mir, rp):
+    ob = run.ob("definitions-beat-import-stubs", "E2", "context::generics, one statement of one file from an arbitrary loop state: a class / type definition is put into the set "
+                "of known types so that it REPLACES an entry of the same name (HashSet::replace, or remove + insert), while the placeholder an import creates is only "
+                "added when nothing of that name is there (HashSet::insert keeps the old entry) - whatever the order of the files, the definition wins over the stub",
+                ["check::context::generic::generics (loop body)", "its import closure"])
+    try:
+        fn = e2.find1(mir, file="src/check/context/generic.rs", name="generics")
+        ex = Exec(mir, max_paths=20000)
+        st = State()
+        ends = e2.run_kernel(run, ex, fn, [Opq(z3.Const("files", Val), "&[AST]")], st)
+        claims, n_def = [], 0
+        for p in ends:
+            if p.kind != "loop_back":
+                continue
+            tf = [e_ for e_ in p.events if e_["name"] == "GenericClass.TryFrom::try_from"]
+            if not tf:
+                continue
+            n_def += 1
+            payload = ex.to_val(p.state, ex.project(p.state, ex.project(p.state, tf[-1]["ret"], ("v", "Ok")), ("f", 0), "GenericClass"))
+            put = [e_ for e_ in p.events if e_["name"] in ("HashSet::insert", "HashSet::replace") and len(e_["argvals"]) > 1 and z3.eq(e_["argvals"][1], payload)]
+            removed = [e_ for e_ in p.events if e_["name"] in ("HashSet::remove", "HashSet::take")]
+            ok = len(put) == 1 and (put[0]["name"] == "HashSet::replace" or (removed and p.events.index(removed[0]) < p.events.index(put[0])))
+            claims.append(z3.Implies(conj(p.cond), z3.BoolVal(bool(ok))))
+        # the import closure: plain insert (an existing entry stays)
+        cl = [f for n, f in mir.fns.items() if re.match(r"^(.*::)?generics::\{closure#\d+\}$", n)]
+        n_stub = 0
+        for f in cl:
+            st2 = State()
+            types = Ref(ex.new_cell(st2, Opq(z3.Const("types", Val), "HashSet<GenericClass>")))
+            envty = f.args[0][1].strip()
+            env = Agg("closure", envty.lstrip("&").replace("mut ", "").strip(), [types])
+            try:
+                ends2 = e2.run_kernel(run, ex, f, [Ref(ex.new_cell(st2, env)) if envty.startswith("&") else env, Opq(z3.Const("stub", Val), "GenericClass")], st2)
+            except Unsupported:
+                continue
+            for p in ends2:
+                ins = [e_ for e_ in p.events if e_["name"].startswith("HashSet::")]
+                if not ins:
+                    continue
+                n_stub += 1
+                claims.append(z3.Implies(conj(p.cond), z3.BoolVal(all(e_["name"] in ("HashSet::insert", "HashSet::contains") for e_ in ins))))
+        if n_def < 2 or not n_stub:
+            raise Unsupported(f"{n_def} definition paths, {n_stub} import-stub paths")
+
+        def replay(model):
+            lib = "class Point(def px: Int)\n    def dist(self) -> Int => self.px\n"
+            use = "from {m} import Point\ndef p := Point(3)\nprint(p.px)\nprint(p.dist())\n"
+            res = {}
+            for libname, usename in (("b_lib", "a_use"), ("a_lib", "b_use")):
+                st_, msg, out = run_project(rp, {f"src/{libname}.mamba": lib, f"src/{usename}.mamba": use.format(m=libname)})
+                res[f"{usename}+{libname}"] = (st_, msg[:100] if st_ != "OK" else "")
+            if len({v[0] for v in res.values()}) > 1:
+                return {"reproduced": True, "role": "file-order:importer-before-definition", "detail": f"the same two files, presented in either order: {res}"}
+            return {"reproduced": False, "detail": f"both orders of importer and definition get the same verdict ({list(res.values())[0][0]})"}
+        e2.prove(run, ob, ex, [], conj(claims), {}, replay)
+        if ob.status == "discharged":
+            r_ = replay({})
+            run.validated += 2
+            if r_["reproduced"]:
+                ob.status = "pending"
+                ob.inconclusive("the verdict still depends on the order of the files: " + r_["detail"][:300])
+        run.samples.append({"obligation": ob.id, "definition_paths": n_def, "stub_paths": n_stub})
+    except Unsupported as e:
+        ob.inconclusive(str(e))
+
+
 def scenarios(rp):
     """[(role, ok?, detail)]"""
     res = []
@@ -432,6 +498,8 @@ def run(run):
         e2.prove(run, ob5, ex, [], conj(cl), {}, scen_replay(rp, "diagnostic-path-relative", only=["all-or-nothing"]))
     except Unsupported as e:
         ob5.inconclusive(str(e))
+
+    ob_definitions_beat_stubs(run, mir, rp)
 
     if run.clean():
         res = scenarios(rp)
